@@ -999,24 +999,39 @@ impl Edges {
     fn map(&self, parent: NodeId, mut f: impl FnMut(NodeId) -> NodeId) -> Edges {
         match self {
             Edges::Version { edges: map } => Edges::Version {
-                edges: map
-                    .iter()
-                    .cloned()
-                    .map(|(range, node)| (range, f(node.negate(parent))))
-                    .collect(),
+                edges: Edges::map_ranges(map, parent, f),
             },
             Edges::String { edges: map } => Edges::String {
-                edges: map
-                    .iter()
-                    .cloned()
-                    .map(|(range, node)| (range, f(node.negate(parent))))
-                    .collect(),
+                edges: Edges::map_ranges(map, parent, f),
             },
             Edges::Boolean { high, low } => Edges::Boolean {
                 low: f(low.negate(parent)),
                 high: f(high.negate(parent)),
             },
         }
+    }
+
+    // Apply the given function to all children of a range map, merging adjacent ranges
+    // whose children became equal (as `apply_ranges` does), so the result stays canonical.
+    fn map_ranges<T>(
+        map: &SmallVec<(Ranges<T>, NodeId)>,
+        parent: NodeId,
+        mut f: impl FnMut(NodeId) -> NodeId,
+    ) -> SmallVec<(Ranges<T>, NodeId)>
+    where
+        T: Clone + Ord,
+    {
+        let mut mapped: SmallVec<(Ranges<T>, NodeId)> = SmallVec::new();
+        for (range, node) in map {
+            let node = f(node.negate(parent));
+            match mapped.last_mut() {
+                Some((prev_range, prev)) if *prev == node && can_conjoin(prev_range, range) => {
+                    *prev_range = prev_range.union(range);
+                }
+                _ => mapped.push((range.clone(), node)),
+            }
+        }
+        mapped
     }
 
     // Returns an iterator over all direct children of this node.
